@@ -230,7 +230,7 @@ var skipInit = map[string]bool{
 	"internal/godebug": true, "internal/cpu": true, "internal/runtime/sys": true, "internal/syscall/unix": true,
 	"os/exec": true, "os/signal": true, "os/user": true, "net": true, "crypto/rand": true, "math/rand": true, "math/rand/v2": true,
 	"internal/reflectlite": true, "sync": true, "sync/atomic": true, "internal/bytealg": true, "internal/abi": true,
-	"internal/oserror": true, "io/fs": false, "path/filepath": false, "internal/testlog": true, "internal/syscall/execenv": true,
+	"internal/oserror": false, "io/fs": false, "path/filepath": false, "internal/testlog": true, "internal/syscall/execenv": true,
 	"context": false, "testing": true, "encoding/json": true, "flag": true, "log": true, "runtime/debug": true, "runtime/pprof": true,
 	"internal/sync": true, "internal/race": true, "internal/runtime/atomic": true, "unique": true, "weak": true, "iter": false,
 	"golang.org/x/sys/unix": true, "golang.org/x/term": true, "internal/filepathlite": false, "internal/goos": true,
